@@ -257,8 +257,9 @@ def program_from_assignment(a, patterns):
     """Turn a deviation assignment into a composition recipe.
 
     a: {"pattern": index, "key", "meter", "channel", "velocity", "instrument", "name", "tracks",
-        "nbars", "register"}; bars of a track are the patterns p, p+5, p+7 (mod 12); further tracks
-    start 3 patterns later, use channel+1 and no instrument change of their own kind."""
+        "nbars", "register"}; bars of a track are the patterns p, p+5, p+7 (mod 12); track i starts
+    3*i patterns later, uses channel+i, is named name+str(i) and carries the instrument only when i is
+    even (so multi-track programs mix tracks with and without an instrument)."""
     tracks = []
     for ti in range(a["tracks"]):
         p0 = (a["pattern"] + 3 * ti) % len(patterns)
